@@ -48,6 +48,8 @@ func ProcShapes() []ProcShape {
 		{Name: "stdin-redirected-parent-with-children", Lines: []string{`MARK bash -c 'sleep 300 & sleep 301 & wait' </dev/null`}, Leaves: 2},
 		{Name: "pipe-consumer-with-children", Lines: []string{`echo x | MARK bash -c 'cat >/dev/null; sleep 300 & sleep 301; wait'`}, Leaves: 2},
 		{Name: "heredoc-stdin-with-children", Lines: []string{"MARK bash -c 'cat >/dev/null; sleep 300 & wait' <<EOT\nline\nEOT"}, Leaves: 1},
+		{Name: "exit-nonzero-on-int-allow-failure", Lines: []string{`MARK bash -c 'trap "exit 130" INT; sleep 300 & wait'`}, Leaves: 1, AllowFailure: true},
+		{Name: "exit-nonzero-on-int", Lines: []string{"MARK true", `MARK bash -c 'trap "exit 3" INT; sleep 300 & wait'`}, Leaves: 1},
 		{Name: "ignore-int-last-allow-failure", Lines: []string{`MARK bash -c 'trap "" INT; sleep 300'`}, Leaves: 1, AllowFailure: true},
 		{Name: "leader-exited-child-detached", Lines: []string{`MARK sh -c 'sleep 300 >/dev/null 2>&1 </dev/null &'`, "MARK sleep 301"}, Leaves: 2},
 		{Name: "leader-dies-ignorer-detached-from-pipes", Lines: []string{`MARK bash -c '(trap "" INT; exec sleep 300) >/dev/null 2>&1 </dev/null & wait'`}, Leaves: 1, DetachedIgnorer: true},
@@ -149,7 +151,7 @@ func RunProcCase(seed int64, o ProcOpts) *HistResult {
 	specs := []gen.PipeSpec{{Name: "target", Def: mkDef(shape), Graph: gen.Graph{Names: []string{"tree"}, Deps: map[string][]string{}}}}
 	otherShapes := []ProcShape{}
 	for i := 0; i < o.Others; i++ {
-		sh := shapes[r.Intn(len(shapes)-7)] // not the detached / stdin ones
+		sh := shapes[r.Intn(len(shapes)-9)] // not the detached / stdin ones
 		otherShapes = append(otherShapes, sh)
 		specs = append(specs, gen.PipeSpec{Name: fmt.Sprintf("other%d", i), Def: mkDef(sh), Graph: gen.Graph{Names: []string{"tree"}, Deps: map[string][]string{}}})
 	}
